@@ -694,6 +694,7 @@ func ExpandInline(paths []*Path, pick func(*Call) *ssa.Function, enum func(*ssa.
 					np.Conds = append(np.Conds, Cond{Term: t, V: cd.V, Val: cd.Val, At: cd.At, Step: step})
 				}
 				np.Conds = append(np.Conds, p.Conds[ins:]...)
+				np.seeThroughResults()
 				if !np.consistent() {
 					continue
 				}
@@ -710,6 +711,39 @@ func ExpandInline(paths []*Path, pick func(*Call) *ssa.Function, enum func(*ssa.
 		}
 	}
 	return out, nil
+}
+
+// seeThroughResults rewrites a condition that tests the boolean result of an inlined callee (if w.registered(s) { … })
+// into the expression that callee returned on this path (w.local.Get(s.ID()) != nil), keeping the branch taken.
+func (p *Path) seeThroughResults() {
+	for i, cd := range p.Conds {
+		v0, nots := cd.V, 0
+		for {
+			u, ok := v0.(*ssa.UnOp)
+			if !ok || u.Op != token.NOT {
+				break
+			}
+			v0 = u.X
+			nots++
+		}
+		switch v0.(type) {
+		case *ssa.Call, *ssa.Extract:
+		default:
+			continue
+		}
+		r := p.Resolve(v0)
+		if r == v0 {
+			continue
+		}
+		if _, isConst := r.(*ssa.Const); isConst {
+			continue // judged by consistent()
+		}
+		_, neg := splitNeg(p.Term(cd.V))
+		branch := cd.Val != neg
+		v0val := branch != (nots%2 == 1)
+		t, neg2 := splitNeg(TermSubst(r, p.Phi, p.Params))
+		p.Conds[i] = Cond{Term: t, V: r, Val: v0val != neg2, At: cd.At, Step: cd.Step}
+	}
 }
 
 // PathCall is a call executed on a path.
